@@ -100,16 +100,20 @@ def formula(e, env):
         return ('const', bool(env[e.id][1]))
     if isinstance(e, ast.Name) and isinstance(env.get(e.id), tuple) and env[e.id][0] == 'bitvar':
         return ('bitvar', env[e.id][1])
-    if isinstance(e, ast.Compare) and len(e.ops) == 1 and isinstance(e.ops[0], (ast.Is, ast.IsNot)) \
-            and isinstance(e.left, ast.Name) and isinstance(e.comparators[0], ast.Constant) and e.comparators[0].value is None:
+    if isinstance(e, ast.Compare) and len(e.ops) == 1 and isinstance(e.ops[0], (ast.Is, ast.IsNot, ast.Eq, ast.NotEq)) \
+            and isinstance(e.left, ast.Name) and isinstance(e.comparators[0], ast.Constant):
         k = env.get(e.left.id)
+        cv = e.comparators[0].value
         res = None
         if isinstance(k, tuple) and k[0] == 'const':
-            res = (k[1] is None)
-        elif k in ('read', 'data') or (isinstance(k, tuple) and k[0] == 'bitvar'):
+            if isinstance(e.ops[0], (ast.Is, ast.IsNot)):
+                res = (k[1] is cv)
+            else:
+                res = (k[1] == cv)
+        elif cv is None and (k in ('read', 'data') or (isinstance(k, tuple) and k[0] == 'bitvar')) and isinstance(e.ops[0], (ast.Is, ast.IsNot)):
             res = False
         if res is not None:
-            return ('const', res if isinstance(e.ops[0], ast.Is) else (not res))
+            return ('const', res if isinstance(e.ops[0], (ast.Is, ast.Eq)) else (not res))
     if not is_cfg_expr(e, env):
         return ('nondet',)
     # canonicalise
